@@ -45,6 +45,8 @@ VARIABLES
   \* @type: Int;
   need,       \* fixed octets the current per-type reader still has to read unconditionally
   \* @type: Int;
+  ops,        \* operations of the current field program still to run
+  \* @type: Int;
   minl,       \* the minimum payload length its single length check compares with (need, or need + 1)
   \* @type: Int;
   hdr,        \* data header octets after the flags (4 .. 12)
@@ -61,7 +63,7 @@ VARIABLES
   \* @type: Int;
   reqrem
 
-vars == <<pc, rem, arem, prem, len, alen, need, minl, hdr, hasL, hasO, osz, used, req, reqrem>>
+vars == <<pc, rem, arem, prem, len, alen, need, ops, minl, hdr, hasL, hasO, osz, used, req, reqrem>>
 
 LOn(g) == g \notin LOff
 
@@ -71,11 +73,12 @@ Pcs == {"flags", "post_flags", "c_hdr", "c_len", "c_carve", "a_hdr", "a_len", "a
 U16 == IF FieldMax >= 65535 THEN 0..65535 ELSE (0..FieldMax) \cup {65535}
 AvpLens == IF FieldMax >= 1023 THEN 0..1023 ELSE (0..FieldMax) \cup {1023}
 MinLens == 0..26            \* the largest minimum payload (Call Errors)
+OpsRange == 0..9            \* the longest field program has 7 operations
 Widths == {1, 2, 4, 8, 16}  \* fixed-width field sizes
 
 Init ==
   /\ pc = "flags" /\ rem \in 0..MaxRem
-  /\ arem = 0 /\ prem = 0 /\ len = 0 /\ alen = 0 /\ need = 0 /\ minl = 0 /\ hdr = 4 /\ hasL = FALSE /\ hasO = FALSE
+  /\ arem = 0 /\ prem = 0 /\ len = 0 /\ alen = 0 /\ need = 0 /\ ops = 0 /\ minl = 0 /\ hdr = 4 /\ hasL = FALSE /\ hasO = FALSE
   /\ osz = 0 /\ used = 0 /\ req = 0 /\ reqrem = 0
 
 Issue(n, r) == req' = n /\ reqrem' = r
@@ -86,95 +89,96 @@ Done == pc' = "done" /\ Quiet
 Flags ==
   /\ pc = "flags"
   /\ IF LOn("Flags2") /\ rem < 2
-       THEN Done /\ UNCHANGED <<rem, arem, prem, len, alen, need, minl, hdr, hasL, hasO, osz, used>>
+       THEN Done /\ UNCHANGED <<rem, arem, prem, len, alen, need, ops, minl, hdr, hasL, hasO, osz, used>>
        ELSE /\ Issue(2, rem) /\ rem' = rem - 2 /\ used' = 2 /\ pc' = "post_flags"
-            /\ UNCHANGED <<arem, prem, len, alen, need, minl, hdr, hasL, hasO, osz>>
+            /\ UNCHANGED <<arem, prem, len, alen, need, ops, minl, hdr, hasL, hasO, osz>>
 
 \* version / reserved / dispatch / unused-field / L,S-bit checks: no reader activity; they
 \* lead to the control header, the data header, or a rejection
 PostFlags ==
   /\ pc = "post_flags" /\ Quiet /\ pc' \in {"post_flags", "c_hdr", "d_min", "done"}
-  /\ UNCHANGED <<rem, arem, prem, len, alen, need, minl, hdr, hasL, hasO, osz, used>>
+  /\ UNCHANGED <<rem, arem, prem, len, alen, need, ops, minl, hdr, hasL, hasO, osz, used>>
 
 \* a step that touches no reader and stays where it is (bookkeeping of the real machine)
 Idle ==
-  /\ Quiet /\ UNCHANGED <<pc, rem, arem, prem, len, alen, need, minl, hdr, hasL, hasO, osz, used>>
+  /\ Quiet /\ UNCHANGED <<pc, rem, arem, prem, len, alen, need, ops, minl, hdr, hasL, hasO, osz, used>>
 
 CtlHeader ==
   /\ pc = "c_hdr"
   /\ IF LOn("CtlHdr10") /\ rem < 10
-       THEN Done /\ UNCHANGED <<rem, arem, prem, len, alen, need, minl, hdr, hasL, hasO, osz, used>>
+       THEN Done /\ UNCHANGED <<rem, arem, prem, len, alen, need, ops, minl, hdr, hasL, hasO, osz, used>>
        ELSE /\ Issue(10, rem) /\ rem' = rem - 10 /\ len' \in U16 /\ pc' = "c_len"
-            /\ UNCHANGED <<arem, prem, alen, need, minl, hdr, hasL, hasO, osz, used>>
+            /\ UNCHANGED <<arem, prem, alen, need, ops, minl, hdr, hasL, hasO, osz, used>>
 
 CtlLength ==
   /\ pc = "c_len" /\ Quiet
   /\ IF (LOn("CtlLen12") /\ len < 12) \/ (LOn("CtlLenFit") /\ len > rem + 12)
        THEN pc' = "done" ELSE pc' = "c_carve"
-  /\ UNCHANGED <<rem, arem, prem, len, alen, need, minl, hdr, hasL, hasO, osz, used>>
+  /\ UNCHANGED <<rem, arem, prem, len, alen, need, ops, minl, hdr, hasL, hasO, osz, used>>
 
 CtlCarve ==
   /\ pc = "c_carve"
   /\ Issue(len - 12, rem) /\ arem' = len - 12 /\ rem' = rem - (len - 12) /\ pc' = "a_hdr"
-  /\ UNCHANGED <<prem, len, alen, need, minl, hdr, hasL, hasO, osz, used>>
+  /\ UNCHANGED <<prem, len, alen, need, ops, minl, hdr, hasL, hasO, osz, used>>
 
 AvpHeader ==
   /\ pc = "a_hdr"
   /\ IF arem < 6
-       THEN Done /\ UNCHANGED <<rem, arem, prem, len, alen, need, minl, hdr, hasL, hasO, osz, used>>
+       THEN Done /\ UNCHANGED <<rem, arem, prem, len, alen, need, ops, minl, hdr, hasL, hasO, osz, used>>
        ELSE /\ Issue(6, arem) /\ arem' = arem - 6 /\ alen' \in AvpLens /\ pc' = "a_len"
-            /\ UNCHANGED <<rem, prem, len, need, minl, hdr, hasL, hasO, osz, used>>
+            /\ UNCHANGED <<rem, prem, len, need, ops, minl, hdr, hasL, hasO, osz, used>>
 
 AvpLength ==
   /\ pc = "a_len" /\ Quiet
   /\ IF (LOn("AvpLen6") /\ alen < 6) \/ (LOn("AvpFit") /\ alen - 6 > arem)
        THEN pc' = "done" ELSE pc' \in {"a_skip", "a_bytes", "a_sub"}      \* vendor-specific / hidden / ordinary
-  /\ UNCHANGED <<rem, arem, prem, len, alen, need, minl, hdr, hasL, hasO, osz, used>>
+  /\ UNCHANGED <<rem, arem, prem, len, alen, need, ops, minl, hdr, hasL, hasO, osz, used>>
 
 AvpSkip ==
   /\ pc = "a_skip"
   /\ Issue(alen - 6, arem) /\ arem' = arem - (alen - 6) /\ pc' = "a_hdr"
-  /\ UNCHANGED <<rem, prem, len, alen, need, minl, hdr, hasL, hasO, osz, used>>
+  /\ UNCHANGED <<rem, prem, len, alen, need, ops, minl, hdr, hasL, hasO, osz, used>>
 
 AvpBytes ==        \* bytes() is a checked operation: no request is issued
   /\ pc = "a_bytes" /\ Quiet
   /\ arem' = arem - (alen - 6) /\ pc' = "a_hdr"
-  /\ UNCHANGED <<rem, prem, len, alen, need, minl, hdr, hasL, hasO, osz, used>>
+  /\ UNCHANGED <<rem, prem, len, alen, need, ops, minl, hdr, hasL, hasO, osz, used>>
 
 AvpSub ==
   /\ pc = "a_sub"
   /\ Issue(alen - 6, arem) /\ prem' = alen - 6 /\ arem' = arem - (alen - 6)
-  /\ need' \in MinLens /\ minl' \in {need', need' + 1}                   \* + 1: a non-empty rest / text part
+  /\ need' \in MinLens /\ ops' \in OpsRange /\ minl' \in {need', need' + 1}                   \* + 1: a non-empty rest / text part
   /\ pc' \in {"a_min", "a_hdr"}                                           \* known type / unknown type
   /\ UNCHANGED <<rem, len, alen, hdr, hasL, hasO, osz, used>>
 
 AvpMin ==
   /\ pc = "a_min" /\ Quiet
   /\ IF LOn("AvpMin") /\ prem < minl
-       THEN pc' = "a_hdr" /\ need' \in MinLens            \* (the count of fields to read is meaningless from here on)
-       ELSE pc' = "a_read" /\ UNCHANGED need
+       THEN pc' = "a_hdr" /\ need' \in MinLens /\ ops' \in OpsRange   \* (what is left to read is meaningless from here on)
+       ELSE pc' = "a_read" /\ UNCHANGED <<need, ops>>
   /\ UNCHANGED <<rem, arem, prem, len, alen, minl, hdr, hasL, hasO, osz, used>>
 
-\* one operation of the field program
+\* one operation of the field program (every operation that stays in the AVP uses up one of `ops`)
 AvpRead ==
   /\ pc = "a_read"
   /\ \/ \* a fixed-width field or reserved skip of k octets: read; an enumerated code may be rejected
         \E k \in MinLens :
-          /\ k >= 1 /\ k <= need /\ Issue(k, prem)
-          /\ \/ prem' = prem - k /\ need' = need - k /\ pc' = "a_read"
-             \/ UNCHANGED <<prem, need>> /\ pc' = "a_hdr"
-     \/ \* all fixed fields read: the AVP is complete
-        /\ need = 0 /\ Quiet /\ pc' = "a_hdr" /\ UNCHANGED <<prem, need>>
+          /\ k >= 1 /\ k <= need /\ ops >= 1 /\ Issue(k, prem)
+          /\ \/ prem' = prem - k /\ need' = need - k /\ ops' = ops - 1 /\ pc' = "a_read"
+             \/ UNCHANGED <<prem, need, ops>> /\ pc' = "a_hdr"
+     \/ \* all operations done: the AVP is complete
+        /\ need = 0 /\ ops = 0 /\ Quiet /\ pc' = "a_hdr" /\ UNCHANGED <<prem, need, ops>>
      \/ \* ... or a rest / text tail taken with the CHECKED bytes(): all that remains, or an error
-        /\ need = 0 /\ Quiet /\ UNCHANGED need
-        /\ \/ prem' = 0 /\ pc' = "a_read"
-           \/ UNCHANGED prem /\ pc' = "a_hdr"
+        /\ need = 0 /\ ops >= 1 /\ Quiet /\ UNCHANGED need
+        /\ \/ prem' = 0 /\ ops' = ops - 1 /\ pc' = "a_read"
+           \/ UNCHANGED <<prem, ops>> /\ pc' = "a_hdr"
      \/ \* ... or Result Code's optional error part: absent when fewer than two octets remain
-        /\ need = 0 /\ LOn("ErrTail2") /\ prem < 2 /\ Quiet /\ pc' = "a_read" /\ UNCHANGED <<prem, need>>
+        /\ need = 0 /\ ops >= 1 /\ LOn("ErrTail2") /\ prem < 2 /\ Quiet /\ pc' = "a_read" /\ ops' = ops - 1
+        /\ UNCHANGED <<prem, need>>
      \/ \* ... else its two-octet error type is read (then text by bytes(), or an error)
-        /\ need = 0 /\ (LOn("ErrTail2") => prem >= 2) /\ Issue(2, prem) /\ UNCHANGED need
-        /\ \/ prem' \in {prem - 2, 0} /\ pc' = "a_read"
-           \/ UNCHANGED prem /\ pc' = "a_hdr"
+        /\ need = 0 /\ ops >= 1 /\ (LOn("ErrTail2") => prem >= 2) /\ Issue(2, prem) /\ UNCHANGED need
+        /\ \/ prem' \in {prem - 2, 0} /\ ops' = ops - 1 /\ pc' = "a_read"
+           \/ UNCHANGED <<prem, ops>> /\ pc' = "a_hdr"
   /\ UNCHANGED <<rem, arem, len, alen, minl, hdr, hasL, hasO, osz, used>>
 
 DataMin ==
@@ -184,41 +188,41 @@ DataMin ==
        IF LOn("DataMin") /\ rem < h
          THEN pc' = "done" /\ UNCHANGED <<hdr, hasL, hasO>>
          ELSE pc' = "d_fields" /\ hdr' = h /\ hasL' = l /\ hasO' = o
-  /\ UNCHANGED <<rem, arem, prem, len, alen, need, minl, osz, used>>
+  /\ UNCHANGED <<rem, arem, prem, len, alen, need, ops, minl, osz, used>>
 
 DataFields ==
   /\ pc = "d_fields"
   /\ LET n == hdr - (IF hasO THEN 2 ELSE 0) IN
        /\ Issue(n, rem) /\ rem' = rem - n /\ used' = used + n
   /\ len' \in U16 /\ pc' = "d_off"
-  /\ UNCHANGED <<arem, prem, alen, need, minl, hdr, hasL, hasO, osz>>
+  /\ UNCHANGED <<arem, prem, alen, need, ops, minl, hdr, hasL, hasO, osz>>
 
 DataOffset ==
   /\ pc = "d_off"
   /\ IF hasO
        THEN Issue(2, rem) /\ rem' = rem - 2 /\ used' = used + 2 /\ osz' \in U16 /\ pc' = "d_skip"
        ELSE Quiet /\ pc' = "d_ext" /\ UNCHANGED <<rem, used, osz>>
-  /\ UNCHANGED <<arem, prem, len, alen, need, minl, hdr, hasL, hasO>>
+  /\ UNCHANGED <<arem, prem, len, alen, need, ops, minl, hdr, hasL, hasO>>
 
 DataSkip ==
   /\ pc = "d_skip"
   /\ IF LOn("DataOffsetFit") /\ osz > rem
        THEN Done /\ UNCHANGED <<rem, used>>
        ELSE Issue(osz, rem) /\ rem' = rem - osz /\ used' = used + osz /\ pc' = "d_ext"
-  /\ UNCHANGED <<arem, prem, len, alen, need, minl, hdr, hasL, hasO, osz>>
+  /\ UNCHANGED <<arem, prem, len, alen, need, ops, minl, hdr, hasL, hasO, osz>>
 
 DataExtent ==      \* payload extent = Length - octets consumed so far; an empty payload is rejected too
   /\ pc = "d_ext" /\ Quiet
   /\ IF hasL /\ ((LOn("DataLenMin") /\ len < used) \/ (LOn("DataLenFit") /\ len - used > rem))
        THEN pc' = "done" ELSE pc' \in {"d_pay", "done"}
-  /\ UNCHANGED <<rem, arem, prem, len, alen, need, minl, hdr, hasL, hasO, osz, used>>
+  /\ UNCHANGED <<rem, arem, prem, len, alen, need, ops, minl, hdr, hasL, hasO, osz, used>>
 
 DataPayload ==     \* the payload is taken with the checked bytes(); len - used must not underflow (Safe)
   /\ pc = "d_pay" /\ Quiet
   /\ IF hasL THEN rem' = rem - (len - used) /\ used' = len
              ELSE rem' = 0 /\ used' = used + rem
   /\ pc' = "done"
-  /\ UNCHANGED <<arem, prem, len, alen, need, minl, hdr, hasL, hasO, osz>>
+  /\ UNCHANGED <<arem, prem, len, alen, need, ops, minl, hdr, hasL, hasO, osz>>
 
 Next ==
   \/ Flags \/ PostFlags \/ Idle \/ CtlHeader \/ CtlLength \/ CtlCarve
@@ -237,7 +241,7 @@ Safe ==
 TypeOK ==
   /\ pc \in Pcs
   /\ rem \in Int /\ arem \in Int /\ prem \in Int /\ len \in U16 /\ alen \in AvpLens
-  /\ need \in MinLens /\ minl \in 0..27 /\ hdr \in 4..12 /\ hasL \in BOOLEAN /\ hasO \in BOOLEAN
+  /\ need \in MinLens /\ ops \in OpsRange /\ minl \in 0..27 /\ hdr \in 4..12 /\ hasL \in BOOLEAN /\ hasO \in BOOLEAN
   /\ osz \in U16 /\ used \in Int /\ req \in Int /\ reqrem \in Int
 
 \* the inductive invariant: Safe plus what each program counter has already established
@@ -251,6 +255,28 @@ IndInv ==
   /\ (pc = "d_fields" => hdr <= rem)
   /\ (pc = "d_off" /\ hasO => rem >= 2)
   /\ (pc = "d_pay" /\ hasL => len >= used /\ len - used <= rem)
+
+---------------------------------------------------------------------------
+\* Termination for inputs of ANY length (C01 "never fails to terminate"): a lexicographic rank
+\* <<phase, octets left in the AVP region, position inside one iteration>> of natural numbers that
+\* every step strictly decreases -- except bookkeeping steps that leave the abstract state where it is,
+\* of which the Decoder machine takes at most a fixed number in a row (MCDecoder!IdleAdvances).
+LoopPcs == {"a_hdr", "a_len", "a_skip", "a_bytes", "a_sub", "a_min", "a_read"}
+Phase(p) == IF p = "done" THEN 0 ELSE IF p \in LoopPcs THEN 1 ELSE 2
+\* inside the AVP loop the octets left in the region never grow, and the step that leaves a_hdr takes 6 of them
+LoopOctets(p, a) == IF p \in LoopPcs THEN a ELSE 0
+PcRank(p, o) ==
+  CASE p = "flags" -> 9 [] p = "post_flags" -> 8
+    [] p = "c_hdr" -> 7 [] p = "c_len" -> 6 [] p = "c_carve" -> 5
+    [] p = "d_min" -> 7 [] p = "d_fields" -> 6 [] p = "d_off" -> 5 [] p = "d_skip" -> 4 [] p = "d_ext" -> 3 [] p = "d_pay" -> 2
+    [] p = "a_len" -> 50 [] p \in {"a_skip", "a_bytes", "a_sub"} -> 40 [] p = "a_min" -> 30
+    [] p = "a_read" -> 10 + o [] p = "a_hdr" -> 5
+    [] OTHER -> 0
+LexLess(p1, a1, r1, p2, a2, r2) == p1 < p2 \/ (p1 = p2 /\ (a1 < a2 \/ (a1 = a2 /\ r1 < r2)))
+Progress ==
+  \/ pc' = pc /\ rem' = rem /\ arem' = arem /\ prem' = prem /\ need' = need /\ ops' = ops     \* bookkeeping
+  \/ LexLess(Phase(pc'), LoopOctets(pc', arem'), PcRank(pc', ops'), Phase(pc), LoopOctets(pc, arem), PcRank(pc, ops))
+ProgressProp == [][Progress]_vars
 
 \* for Apalache: any state satisfying IndInv as initial state; constants
 IndInit == IndInv
